@@ -587,7 +587,8 @@ def meanrev_case(draw, tier):
         case["x0"] = {"default": None, "theta": th, "zero": 0.0, "low": draw(fl(0.001, 0.5)) * th,
                       "high": th * draw(fl(2.0, 10.0)), "any": draw(fl(0.0005, 0.5))}[case["start"]]
     else:
-        case["kappa"] = draw(st.one_of(fl(0.05, 5.0), fl(0.5, 2.0)))
+        # incl. strong mean reversion over a long horizon (kappa * horizon up to the hundreds)
+        case["kappa"] = draw(st.one_of(fl(0.05, 5.0), fl(0.5, 2.0), st.sampled_from([20.0, 100.0, 300.0])))
         case["theta"] = draw(st.one_of(fl(-0.1, 0.3), st.sampled_from([0.0, 0.04])))
         case["sigma"] = draw(st.one_of(fl(0.002, 0.3), fl(0.01, 0.05)))
         case["dtype"] = draw(st.sampled_from(["float64", "float64", "float32", "float32", None]))
